@@ -69,6 +69,13 @@ func (c *Ctx) resolveCall(st *State, fr *Frame, cc *ssa.CallCommon, fnv Val, arg
 		}
 		sig := cc.Value.Type().Underlying().(*types.Signature)
 		key := "dyn:" + c.dynKey(fr, cc.Value)
+		if _, ok := c.V.specs.Funcs[key]; !ok {
+			// fall back to a contract attached to the function type
+			tk := "dyn:" + typeKey(cc.Value.Type())
+			if _, ok2 := c.V.specs.Funcs[tk]; ok2 {
+				key = tk
+			}
+		}
 		return callTarget{key: key, sig: sig, names: sigParamNames(sig, false), args: args}
 	}
 	unsupp("call of %T", fnv)
@@ -308,8 +315,13 @@ func (c *Ctx) checkPre(st *State, fr *Frame, fc *FuncContract, f *ssa.Function, 
 }
 
 func (c *Ctx) applyContract(st *State, fr *Frame, fc *FuncContract, tgt callTarget, pos token.Pos) Val {
-	if fc.Trusted {
-		c.trusted["assumed-contract: "+tgt.key] = true
+	switch {
+	case fc.Trusted:
+		c.trusted["assumed-contract (dependency): "+tgt.key] = true
+	case fc.NoVerify:
+		c.trusted["assumed-contract (repository function whose body is not verified): "+tgt.key] = true
+	default:
+		c.usedContracts[tgt.key+" (verified under "+strings.Join(fc.Props, ",")+")"] = true
 	}
 	env := c.calleeEnv(st, st, fr, tgt)
 	c.bindLets(env, fc)
@@ -456,6 +468,10 @@ func (c *Ctx) havocLoc(st *State, old *State, fr *Frame, env *Env, m ModLoc, tgt
 			c.heapHavoc(st, mi.KeyVal, mi.ValSort)
 		case "alloc":
 			c.havocKey(st, aliveKey)
+		case "object":
+			// every field of the object an interface value (or pointer) refers to
+			x := env.eval(e.Args[0])
+			c.havocObject(st, x)
 		default:
 			unsupp("modifies: unknown location form %s", m.Src)
 		}
@@ -574,4 +590,35 @@ func (c *Ctx) builtin(st *State, fr *Frame, bi *ssa.Builtin, cc *ssa.CallCommon,
 	}
 	unsupp("builtin %s", bi.Name())
 	return nil
+}
+
+// havocObject forgets every field of the struct x points to. x is a pointer term with a static Go type, or
+// an interface value built in this function (box typeid ref); anything else forgets the whole heap.
+func (c *Ctx) havocObject(st *State, x Term) {
+	var t types.Type
+	ref := x
+	if x.GoT != nil && isStructPtr(x.GoT) {
+		t = x.GoT
+	} else if strings.HasPrefix(x.S, "(box ") {
+		var id int
+		rest := ""
+		if n, _ := fmt.Sscanf(x.S, "(box %d ", &id); n == 1 {
+			rest = strings.TrimSuffix(strings.SplitN(x.S, " ", 3)[2], ")")
+			t = c.V.typeByID(id)
+			ref = Term{S: rest, Sort: SInt}
+		}
+	}
+	if t == nil || !isStructPtr(t) {
+		c.havocAll(st)
+		return
+	}
+	s, owner := structOf(t)
+	for i := 0; i < s.NumFields(); i++ {
+		fi := c.fieldByIndex(owner, i)
+		if isRepoStruct(fi.GoT) {
+			continue
+		}
+		h := c.heapCur(st, fi.Key, arrSort(fi.Sort))
+		st.heap[fi.Key] = sto(h, ref, c.fresh("obj_"+fi.Key, fi.Sort))
+	}
 }
